@@ -58,7 +58,7 @@ def feature_table(draw, n_cols, max_levels=3, max_rows=24, min_rows=1, cell_size
 
 # ---- containers ----------------------------------------------------------------------------------
 
-INDEX_PLANS = ["default", "rev", "offset", "dup", "str", "shuffled"]
+INDEX_PLANS = ["default", "rev", "offset", "dup", "str", "shuffled", "datetime", "multi", "named"]
 VECTOR_KINDS = ["list", "ndarray", "ndarray2d", "series", "dataframe", "ndarray_readonly", "ndarray_strided"]
 
 
@@ -73,6 +73,12 @@ def make_index(plan, n):
         return pd.Index([i // 2 for i in range(n)])
     if plan == "str":
         return pd.Index([f"r{(i * 7) % (n + 3)}_{i}" for i in range(n)])
+    if plan == "datetime":
+        return pd.date_range("2020-01-31", periods=n, freq="-1D", tz="UTC")
+    if plan == "multi":
+        return pd.MultiIndex.from_arrays([[i % 2 for i in range(n)], [n - i for i in range(n)]], names=["a", "b"])
+    if plan == "named":
+        return pd.Index(np.arange(n)[::-1] * 2, name="y_true")
     if plan == "shuffled":
         return pd.Index(np.argsort([(i * 7919 + 13) % 10007 for i in range(n)]))
     raise ValueError(plan)
